@@ -209,7 +209,10 @@ static int32_t wr_index(struct jls_core_fsr_s * self, uint8_t level) {
 static int32_t wr_summary(struct jls_core_fsr_s * self, uint8_t level) {
     struct jls_core_fsr_level_s * dst = self->level[level];
     if (!dst->summary->header.entry_count) {
-        return 0;
+        if ((level != 1) || !dst->index->header.entry_count) {
+            return 0;
+        }
+        // level 1: keep the index for a final block shorter than one summary entry
     }
     int64_t pos_next = jls_raw_chunk_tell(self->parent->parent->raw);
     ROE(wr_index(self, level));
